@@ -1,6 +1,567 @@
-//! C07: not implemented yet.
-use crate::util::Args;
-pub fn main(_a: &Args) {
-    eprintln!("c07: not implemented");
-    std::process::exit(2);
+//! C07 (function level): `norad::user_name_to_file_name` on enumerated and generated names.
+//! Every case is a chain: the name is converted k+1 times, each time with the lower-cased
+//! earlier results as the taken-set (what a container does). Writes the cases as compact text
+//! for the model run (see coq/Run/C07.v), the run's is_uppercase / to_lowercase tables, and the
+//! verdicts of the property oracle evaluated on what norad returned.
+use crate::util::*;
+use norad::user_name_to_file_name;
+use std::collections::{BTreeMap, BTreeSet, HashSet};
+use std::fmt::Write as _;
+
+pub const DOCUMENTED_PANIC: &str = "Could not find a unique file name after 99 tries";
+// the lists of the UFO specification's "common user name to file name" convention, written
+// down independently of norad's source (the oracle must not read them from the code under test)
+const SPEC_ILLEGAL: &str = "\"*+/:<>?[\\]()|";
+const SPEC_RESERVED: [&str; 22] = [
+    "con", "prn", "aux", "nul", "com1", "com2", "com3", "com4", "com5", "com6", "com7", "com8", "com9", "lpt1",
+    "lpt2", "lpt3", "lpt4", "lpt5", "lpt6", "lpt7", "lpt8", "lpt9",
+];
+/// characters with a meaning in the text format of the cases; never generated
+const MARKUP: &str = "#~^%$@\n";
+
+#[derive(Clone)]
+pub struct Case {
+    pub name: String,
+    pub prefix: String,
+    pub suffix: String,
+    /// chain depth: k+1 conversions
+    pub k: usize,
+    pub gen: &'static str,
+}
+
+pub struct Step {
+    pub taken: Vec<String>,
+    pub result: Option<String>,
+    pub panic_msg: Option<String>,
+    pub calls: Vec<(String, bool)>,
+    pub known: bool,
+}
+
+pub fn convert(name: &str, prefix: &str, suffix: &str, taken: &[String]) -> Step {
+    let set: HashSet<&str> = taken.iter().map(|s| s.as_str()).collect();
+    let mut calls: Vec<(String, bool)> = Vec::new();
+    let r = catch(|| {
+        user_name_to_file_name(name, prefix, suffix, |cand| {
+            let ok = !set.contains(cand);
+            calls.push((cand.to_string(), ok));
+            ok
+        })
+    });
+    let (result, panic_msg) = match r {
+        Ok(p) => (Some(p.to_string_lossy().to_string()), None),
+        Err(m) => (None, Some(m)),
+    };
+    // known class F1, decided from what was observed: the first candidate was rejected, it
+    // leaves no room for two digits, and the function's own guard (which looks at the length
+    // without the suffix) did not apply
+    let known = match calls.first() {
+        Some((_, false)) => {
+            match catch(|| user_name_to_file_name(name, prefix, suffix, |_| true)) {
+                Ok(first) => {
+                    let first = first.to_string_lossy().to_string();
+                    let stem = first.len() - suffix.len().min(first.len());
+                    stem + 2 <= 255 && stem + 2 + suffix.len() > 255
+                }
+                Err(_) => false,
+            }
+        }
+        _ => false,
+    };
+    Step { taken: taken.to_vec(), result, panic_msg, calls, known }
+}
+
+pub fn run_chain(c: &Case) -> Vec<Step> {
+    let mut taken: Vec<String> = Vec::new();
+    let mut steps = Vec::new();
+    for _ in 0..=c.k {
+        let st = convert(&c.name, &c.prefix, &c.suffix, &taken);
+        let r = st.result.clone();
+        steps.push(st);
+        match r {
+            Some(r) => taken.push(r.to_lowercase()),
+            None => break,
+        }
+    }
+    steps
+}
+
+pub fn name_valid(s: &str) -> bool {
+    !s.is_empty() && !s.chars().any(|c| (c as u32) < 0x20 || c as u32 == 0x7f || (0x80..=0x9f).contains(&(c as u32)))
+}
+
+/// every clause of the property on one returned name; `kind` 'g' = glif file, 'l' = layer dir.
+/// Returns the failed clauses.
+pub fn portable_clauses(r: &str, kind: char) -> Vec<&'static str> {
+    let mut bad = Vec::new();
+    let p = std::path::Path::new(r);
+    let comps: Vec<_> = p.components().collect();
+    let single = comps.len() == 1
+        && matches!(comps[0], std::path::Component::Normal(_))
+        && !r.contains('/')
+        && !r.contains('\\')
+        && r != "."
+        && r != "..";
+    if !single {
+        bad.push("single-component");
+    }
+    if r.len() > 255 {
+        bad.push("length<=255");
+    }
+    if r.chars().any(|c| SPEC_ILLEGAL.contains(c) || (c as u32) < 0x20 || c as u32 == 0x7f) {
+        bad.push("no-illegal-character");
+    }
+    let stem = r.split('.').next().unwrap_or("").to_ascii_lowercase();
+    if SPEC_RESERVED.contains(&stem.as_str()) {
+        bad.push("not-reserved");
+    }
+    if kind == 'g' && r.starts_with('.') {
+        bad.push("no-leading-period");
+    }
+    if r.ends_with('.') || r.ends_with(' ') {
+        bad.push("no-trailing-period-or-space");
+    }
+    if kind == 'g' && !(r.ends_with(".glif") && r.len() > 5) {
+        bad.push("glif-suffix");
+    }
+    if kind == 'l' && !(r.starts_with("glyphs.") && r.len() > 7) {
+        bad.push("glyphs-prefix");
+    }
+    bad
+}
+
+/// the property's clauses on one conversion step of a chain; returns (failed clauses, class)
+pub fn oracle_step(c: &Case, st: &Step) -> (Vec<String>, &'static str) {
+    let mut fails: Vec<String> = Vec::new();
+    match (&st.result, &st.panic_msg) {
+        (None, Some(m)) => {
+            if !m.contains(DOCUMENTED_PANIC) {
+                fails.push(format!("undocumented panic: {}", m));
+            } else if st.calls.len() != 100 || st.calls.iter().any(|(_, ok)| *ok) {
+                fails.push("documented panic although fewer than 100 candidates were rejected".into());
+            }
+        }
+        (Some(r), _) => {
+            // never returns a candidate its caller rejected
+            let low = r.to_lowercase();
+            if st.taken.contains(&low) || st.calls.last().map(|(s, ok)| (s.as_str(), *ok)) != Some((low.as_str(), true)) {
+                fails.push("returned a candidate the caller rejected".into());
+            }
+            let kind = match (c.prefix.as_str(), c.suffix.as_str()) {
+                ("", ".glif") => Some('g'),
+                ("glyphs.", "") => Some('l'),
+                _ => None,
+            };
+            if let (Some(k), true) = (kind, name_valid(&c.name)) {
+                for cl in portable_clauses(r, k) {
+                    fails.push(cl.to_string());
+                }
+            }
+        }
+        _ => {}
+    }
+    let only_len = !fails.is_empty() && fails.iter().all(|f| f == "length<=255");
+    (fails, if only_len && st.known { "len257" } else { "" })
+}
+
+/// run-length markup of the text format: ~n~c, ^n^cd
+pub fn rle(s: &str) -> String {
+    let cs: Vec<char> = s.chars().collect();
+    let mut out = String::new();
+    let mut i = 0;
+    while i < cs.len() {
+        let mut best = (1usize, 1usize);
+        for bl in 1..=2usize {
+            if i + bl > cs.len() {
+                break;
+            }
+            let mut k = 1;
+            while i + (k + 1) * bl <= cs.len() && cs[i + k * bl..i + (k + 1) * bl] == cs[i..i + bl] {
+                k += 1;
+            }
+            if k * bl > best.0 * best.1 {
+                best = (bl, k);
+            }
+        }
+        if best.0 * best.1 >= 6 {
+            let m = if best.0 == 1 { '~' } else { '^' };
+            let _ = write!(out, "{}{}{}", m, best.1, m);
+            for c in &cs[i..i + best.0] {
+                out.push(*c);
+            }
+            i += best.0 * best.1;
+        } else {
+            out.push(cs[i]);
+            i += 1;
+        }
+    }
+    out
+}
+
+fn field(c: &Case, st: &Step) -> String {
+    let mut f = match &st.result {
+        None => "%".to_string(),
+        Some(r) => {
+            if r.len() >= c.prefix.len() + c.suffix.len() && r.starts_with(&c.prefix) && r.ends_with(&c.suffix) {
+                let mid = &r[c.prefix.len()..r.len() - c.suffix.len()];
+                let e = rle(mid);
+                // a middle part that starts like a marker is sent in full
+                if e.starts_with('%') || e.starts_with('$') {
+                    format!("${}", rle(r))
+                } else {
+                    e
+                }
+            } else {
+                format!("${}", rle(r))
+            }
+        }
+    };
+    if st.known {
+        f.push('@');
+    }
+    f
+}
+
+fn line(c: &Case, steps: &[Step]) -> String {
+    let mut s = format!("{}#{}#{}", rle(&c.prefix), rle(&c.suffix), rle(&c.name));
+    for st in steps {
+        s.push('#');
+        s.push_str(&field(c, st));
+    }
+    s.push('\n');
+    s
+}
+
+pub const ALPHABET: [char; 15] = ['.', ' ', 'a', 'A', '_', '/', 'c', 'o', 'n', '1', 'É', '€', '😀', 'ǅ', 'İ'];
+// characters with interesting case behaviour / widths (U+03A3 is deliberately absent: its
+// lower-casing depends on context, see DESIGN section 8 C07)
+const POOL: [char; 44] = [
+    'a', 'b', 'z', 'A', 'B', 'Z', '.', ' ', '_', '-', '0', '9', ':', '?', '"', '(', ')', '[', ']', '*', '/', '\\', '+',
+    '<', '>', '|', 'é', 'É', 'ß', 'ẞ', 'Ǆ', 'ǅ', 'ǆ', 'İ', 'ı', 'K', 'Ⅷ', 'Ⓐ', '𝐀', '𐐀', 'А', 'α', '中', '😀',
+];
+const CONFIGS: [(&str, &str); 3] = [("", ".glif"), ("glyphs.", ""), ("", "")];
+
+fn gen_listed(a: &Args, rng: &mut Rng) -> Vec<Case> {
+    let mut cs: Vec<Case> = Vec::new();
+    let mk = |name: String, p: &str, s: &str, k: usize, gen: &'static str| Case {
+        name,
+        prefix: p.to_string(),
+        suffix: s.to_string(),
+        k,
+        gen,
+    };
+    // reserved words with and without decorations, several affix configurations
+    let confs: [(&str, &str); 6] =
+        [("", ".glif"), ("glyphs.", ""), ("", ""), ("con.", ".con"), ("hello.", ".glif"), ("", ".x")];
+    for w in SPEC_RESERVED {
+        let mut up = w.to_string();
+        up[..1].make_ascii_uppercase();
+        let vars = [
+            w.to_string(),
+            format!("{}.x", w),
+            format!("{}x", w),
+            format!("x{}", w),
+            format!("{}.", w),
+            format!("{} ", w),
+            up,
+            format!("{}0", w),
+            format!("_{}", w),
+            format!("{}..", w),
+            w.to_uppercase(),
+        ];
+        for v in vars {
+            for (p, s) in confs {
+                cs.push(mk(v.clone(), p, s, 1, "reserved"));
+            }
+        }
+    }
+    // lengths around every clip boundary, in every UTF-8 width mix
+    let fillers = ['a', 'A', 'é', '€', '😀', '.', ' '];
+    let tails: Vec<&str> = if a.thorough() {
+        vec!["", "a", "A", "é", "€", "😀", ".", " ", "a.", ". ", "é😀", "€a", "😀é", "A.", " a", "€€", "😀😀", ".a"]
+    } else {
+        vec!["", "a", "A", "é", "€", "😀", ".", " ", "a.", "é😀"]
+    };
+    let confs4: [(&str, &str); 4] = [("", ".glif"), ("glyphs.", ""), ("", ""), ("hello.", ".glif")];
+    for (p, s) in confs4 {
+        let boundary = 255 - s.len();
+        let (lo, hi) = if a.thorough() { (boundary - 12, boundary + 8) } else { (boundary - 4, boundary + 3) };
+        for f in fillers {
+            let w = if f == 'A' { 2 } else { f.len_utf8() };
+            for target in lo..=hi {
+                let k = target.saturating_sub(p.len()) / w;
+                for t in &tails {
+                    let name: String = std::iter::repeat(f).take(k).chain(t.chars()).collect();
+                    cs.push(mk(name, p, s, 1, "clip-boundary"));
+                }
+            }
+        }
+    }
+    // taken-sets that force 0 .. 99 clashes and then the documented panic
+    let chain_names: Vec<String> = vec![
+        "a".into(),
+        "A".into(),
+        "Ab".into(),
+        "con".into(),
+        ".".into(),
+        "a.".into(),
+        "İ".into(),
+        "ǅ".into(),
+        "a".repeat(300),
+        "A".repeat(300),
+        "a_".repeat(150),
+        "😀".repeat(70),
+        format!("{}é", "a".repeat(249)),
+        format!("{}.", "a".repeat(254)),
+        " ".repeat(260),
+    ];
+    for (i, nm) in chain_names.iter().enumerate() {
+        for (ci, (p, s)) in CONFIGS.iter().enumerate() {
+            // the full 0..99 clashes + panic for the short names and four long combinations
+            let long_full = matches!((i, ci), (8, 0) | (8, 2) | (9, 1) | (10, 0));
+            let k = if nm.len() < 20 || long_full || a.thorough() { 100 } else { 12 };
+            cs.push(mk(nm.clone(), p, s, k, "chain"));
+        }
+    }
+    // extreme suffixes (saturating subtractions)
+    for sl in [244usize, 247, 250, 251, 252, 253, 254, 255, 256, 300] {
+        let suffix = format!(".{}", "s".repeat(sl - 1));
+        for nm in ["conx", "a", "😀😀", "con", "..", "A"] {
+            cs.push(mk(nm.to_string(), "", &suffix, 1, "long-suffix"));
+            cs.push(mk(nm.to_string(), "glyphs.", &suffix, 1, "long-suffix"));
+        }
+    }
+    // random names over the pool, random affixes, short chains
+    let nrand = if a.thorough() { 8_000 } else { 1_000 };
+    for i in 0..nrand {
+        let len = if i % 8 == 0 { rng.range(100, 300) } else { rng.range(1, 24) } as usize;
+        let mut name = String::new();
+        let dominant = *rng.pick(&POOL);
+        for _ in 0..len {
+            if rng.chance(1, 2) {
+                name.push(dominant);
+            } else {
+                name.push(*rng.pick(&POOL));
+            }
+        }
+        let (p, s) = *rng.pick(&confs);
+        cs.push(mk(name, p, s, rng.below(4) as usize, "random"));
+    }
+    cs
+}
+
+struct Stats {
+    chars: BTreeSet<char>,
+    by_gen: BTreeMap<&'static str, u64>,
+    cases: u64,
+    steps: u64,
+    clash: u64,
+    panics: u64,
+    clipped: u64,
+    known: u64,
+    oracle_failures: u64,
+    distinct: HashSet<(String, String, String)>,
+    oracle: String,
+    index: String,
+}
+
+fn account(c: &Case, steps: &[Step], shard: &str, local: usize, st: &mut Stats) {
+    for ch in c.name.chars().chain(c.prefix.chars()).chain(c.suffix.chars()) {
+        assert!(!MARKUP.contains(ch) && ch != 'Σ', "generator produced a reserved character");
+        st.chars.insert(ch);
+    }
+    st.cases += 1;
+    *st.by_gen.entry(c.gen).or_insert(0) += 1;
+    let mut nontrivial = c.name.chars().any(|ch| !ch.is_ascii_lowercase());
+    if c.name.len() + c.prefix.len() + c.suffix.len() > 255 {
+        st.clipped += 1;
+        nontrivial = true;
+    }
+    for (i, s) in steps.iter().enumerate() {
+        st.steps += 1;
+        if s.calls.len() > 1 {
+            st.clash += 1;
+        }
+        if s.known {
+            st.known += 1;
+        }
+        if s.result.is_none() {
+            st.panics += 1;
+        }
+        let (fails, class) = oracle_step(c, s);
+        if !fails.is_empty() {
+            st.oracle_failures += 1;
+            let _ = writeln!(
+                st.oracle,
+                "{}",
+                serde_json::json!({"shard": shard, "local": local, "step": i, "failed": fails, "class": class,
+                    "name": c.name, "prefix": c.prefix, "suffix": c.suffix, "k": i, "result": s.result, "panic": s.panic_msg})
+            );
+        }
+    }
+    if nontrivial {
+        st.distinct.insert((c.name.clone(), c.prefix.clone(), c.suffix.clone()));
+    }
+    let _ = writeln!(
+        st.index,
+        "{}",
+        serde_json::json!({"shard": shard, "local": local, "name": c.name, "prefix": c.prefix, "suffix": c.suffix, "k": c.k,
+            "gen": c.gen, "results": steps.iter().take(3).map(|s| s.result.clone()).collect::<Vec<_>>()})
+    );
+}
+
+pub fn main(a: &Args) {
+    if let Some(p) = &a.replay {
+        replay(p);
+        return;
+    }
+    let mut rng = Rng::new(a.seed);
+    let mut st = Stats {
+        chars: "_0123456789".chars().collect(),
+        by_gen: BTreeMap::new(),
+        cases: 0,
+        steps: 0,
+        clash: 0,
+        panics: 0,
+        clipped: 0,
+        known: 0,
+        oracle_failures: 0,
+        distinct: HashSet::new(),
+        oracle: String::new(),
+        index: String::new(),
+    };
+    let mut shards: Vec<serde_json::Value> = Vec::new();
+    // 1. exhaustive: all strings of length <= 3 over the alphabet, three affix configurations,
+    //    each converted twice (without and with a clash). Enumerated inside Coq in the same
+    //    order; only the expected results are written.
+    let n = ALPHABET.len();
+    for (ci, (p, s)) in CONFIGS.iter().enumerate() {
+        // shard "tail = none": lengths 0, 1, 2; shards "tail = x": length 3 ending in x
+        let mut groups: Vec<(String, Vec<usize>, Option<char>)> = vec![(format!("E{}_short", ci), vec![0, 1, 2], None)];
+        for (ti, t) in ALPHABET.iter().enumerate() {
+            groups.push((format!("E{}_t{}", ci, ti), vec![2], Some(*t)));
+        }
+        for (sid, lens, tail) in groups {
+            let mut text = String::new();
+            let mut parts: Vec<serde_json::Value> = Vec::new();
+            let mut local = 0usize;
+            for len in lens {
+                let count = n.pow(len as u32);
+                parts.push(serde_json::json!({"len": len, "count": count}));
+                for idx in 0..count {
+                    let mut x = idx;
+                    let mut name = String::new();
+                    for _ in 0..len {
+                        name.push(ALPHABET[x % n]);
+                        x /= n;
+                    }
+                    if let Some(t) = tail {
+                        name.push(t);
+                    }
+                    let c = Case { name, prefix: p.to_string(), suffix: s.to_string(), k: 1, gen: "exhaustive" };
+                    let steps = run_chain(&c);
+                    let fs: Vec<String> = steps.iter().map(|s| field(&c, s)).collect();
+                    text.push_str(&fs.join("#"));
+                    text.push('\n');
+                    account(&c, &steps, &sid, local, &mut st);
+                    local += 1;
+                }
+            }
+            write_file(&a.out.join(format!("{}.txt", sid)), &text);
+            shards.push(serde_json::json!({"id": sid, "kind": "enum", "prefix": p, "suffix": s, "parts": parts,
+                "tail": tail.map(|t| t as u32), "cases": local}));
+        }
+    }
+    // 2. listed cases
+    let listed = gen_listed(a, &mut rng);
+    let per = 250usize;
+    let mut heavy: Vec<&Case> = Vec::new();
+    let mut light: Vec<&Case> = Vec::new();
+    for c in &listed {
+        if c.k > 10 {
+            heavy.push(c)
+        } else {
+            light.push(c)
+        }
+    }
+    let mut groups: Vec<Vec<&Case>> = light.chunks(per).map(|x| x.to_vec()).collect();
+    groups.extend(heavy.chunks(2).map(|x| x.to_vec()));
+    for (gi, g) in groups.iter().enumerate() {
+        let sid = format!("L{}", gi);
+        let mut text = String::new();
+        for (local, c) in g.iter().enumerate() {
+            let steps = run_chain(c);
+            text.push_str(&line(c, &steps));
+            account(c, &steps, &sid, local, &mut st);
+        }
+        write_file(&a.out.join(format!("{}.txt", sid)), &text);
+        // rough cost of the model run, in units of one byte of case text
+        let extra: usize = g.iter().map(|c| if c.k > 10 { (c.k * c.k / 2) * (c.name.len().min(250) + 10) / 12 } else { 0 }).sum();
+        shards.push(serde_json::json!({"id": sid, "kind": "listed", "cases": g.len(), "weight": text.len() + extra}));
+    }
+    // tables from rustc's std for exactly the characters in use
+    let mut up: Vec<String> = Vec::new();
+    let mut low: Vec<String> = Vec::new();
+    for ch in &st.chars {
+        if ch.is_uppercase() {
+            up.push(format!("{}", *ch as u32));
+        }
+        let l: Vec<char> = ch.to_lowercase().collect();
+        if l != vec![*ch] {
+            low.push(format!("({},{})", *ch as u32, g_nlist(l.iter().map(|c| *c as u64))));
+        }
+    }
+    write_file(
+        &a.out.join("tables.v"),
+        &format!(
+            "Definition up : list N := {}.\nDefinition low : list (N * list N) := {}.\nDefinition alphabet : list N := {}.\n",
+            g_list(&up),
+            g_list(&low),
+            g_nlist(ALPHABET.iter().map(|c| *c as u64))
+        ),
+    );
+    write_file(&a.out.join("oracle.jsonl"), &st.oracle);
+    write_file(&a.out.join("index.jsonl"), &st.index);
+    let summary = serde_json::json!({
+        "shards": shards,
+        "cases": st.cases, "conversions": st.steps, "by_generator": st.by_gen, "conversions_with_clash": st.clash,
+        "documented_panics": st.panics, "names_longer_than_255_before_clipping": st.clipped,
+        "conversions_in_known_class_len257": st.known, "oracle_failures": st.oracle_failures,
+        "distinct_nontrivial": st.distinct.len(), "characters_in_use": st.chars.len(),
+        "uppercase_in_use": up.len(), "lowercase_mappings_in_use": low.len(),
+    });
+    write_file(&a.out.join("summary.json"), &summary.to_string());
+}
+
+fn cps(v: &serde_json::Value) -> String {
+    match v {
+        serde_json::Value::String(s) => s.clone(),
+        serde_json::Value::Array(a) => a.iter().filter_map(|x| x.as_u64()).filter_map(|x| char::from_u32(x as u32)).collect(),
+        _ => String::new(),
+    }
+}
+
+fn replay(p: &std::path::Path) {
+    let v: serde_json::Value = serde_json::from_str(&std::fs::read_to_string(p).expect("replay file")).expect("json");
+    let inp = if v.get("input").is_some() { &v["input"] } else { &v };
+    let c = Case {
+        name: cps(&inp["name"]),
+        prefix: cps(&inp["prefix"]),
+        suffix: cps(&inp["suffix"]),
+        k: inp["k"].as_u64().unwrap_or(0) as usize,
+        gen: "replay",
+    };
+    println!("name      = {:?} ({} bytes)", c.name, c.name.len());
+    println!("prefix    = {:?}  suffix = {:?}  conversions = {} (each with the earlier results taken)", c.prefix, c.suffix, c.k + 1);
+    let steps = run_chain(&c);
+    for (i, s) in steps.iter().enumerate() {
+        if i + 3 < steps.len() && i > 1 {
+            continue;
+        }
+        match (&s.result, &s.panic_msg) {
+            (Some(r), _) => println!("step {:3}: returned {:?} ({} bytes), {} candidates offered", i, r, r.len(), s.calls.len()),
+            (None, m) => println!("step {:3}: panic {:?}", i, m),
+        }
+        let (fails, class) = oracle_step(&c, s);
+        println!("          failed clauses = {:?}  known class = {:?}", fails, class);
+    }
 }
